@@ -16,13 +16,18 @@ type hammerJob struct {
 	f    func() string
 }
 
-func hammerJobs(r *Rng) []hammerJob {
+func hammerJobs(r *Rng) ([]hammerJob, []interface{}) {
 	g := GenCfg{Grid: 6, Unit: 10}
 	a, b := genPaths(r, g, 3, 7), genPaths(r, g, 2, 6)
 	line := clip.Paths64{genPolyline(r, g)}
 	pat := genRect(r, GenCfg{Grid: 2, Unit: 5})
 	rect := clip.NewRect64(10, 10, 45, 40)
 	ad := clip.Paths64ToPathsD(a)
+	// option values change from round to round so that every join / end type branch is hammered
+	jt := []clip.JoinType{clip.Miter, clip.Square, clip.Bevel, clip.Round}[r.Intn(4)]
+	etClosed := []clip.EndType{clip.Polygon, clip.Joined}[r.Intn(2)]
+	etOpen := []clip.EndType{clip.Joined, clip.Butt, clip.SquareET, clip.RoundET}[r.Intn(4)]
+	dlt := float64([]int{4, -3, 6, 2}[r.Intn(4)])
 	jobs := []hammerJob{
 		{"BooleanOpPaths64", func() string { return fmt.Sprint(clip.BooleanOpPaths64(clip.Xor, a, b, clip.NonZero)) }},
 		{"engine64", func() string {
@@ -42,11 +47,14 @@ func hammerJobs(r *Rng) []hammerJob {
 			return fmt.Sprint(s)
 		}},
 		{"BooleanOpPathsD", func() string { return fmt.Sprint(clip.BooleanOpPathsD(clip.Difference, ad, clip.Paths64ToPathsD(b), clip.NonZero, 1)) }},
-		{"InflatePaths64", func() string { return fmt.Sprint(clip.InflatePaths64(a, 4, clip.Round, clip.Polygon)) }},
-		{"InflatePaths64-open", func() string { return fmt.Sprint(clip.InflatePaths64(line, 5, clip.Square, clip.RoundET)) }},
+		{"InflatePaths64", func() string { return fmt.Sprint(clip.InflatePaths64(a, dlt, jt, etClosed)) }},
+		{"InflatePaths64-open", func() string { return fmt.Sprint(clip.InflatePaths64(line, 5, jt, etOpen)) }},
+		{"InflatePaths64-ring-as-open", func() string { return fmt.Sprint(clip.InflatePaths64(a[:1], 3, jt, etOpen)) }},
+		{"InflatePathsD", func() string { return fmt.Sprint(clip.InflatePathsD(ad, dlt, jt, etClosed)) }},
 		{"offset-object", func() string {
 			co := clip.NewClipperOffset(2, 0.25, false, false)
-			co.AddPaths(a, clip.Miter, clip.Polygon)
+			co.AddPaths(a, jt, etClosed)
+			co.AddPaths(line, jt, etOpen)
 			var s clip.Paths64
 			co.Execute64(3, &s)
 			co.Execute64(-2, &s)
@@ -68,16 +76,17 @@ func hammerJobs(r *Rng) []hammerJob {
 			return fmt.Sprint(clip.ScalePathsDToPaths64(ad, 100), clip.ScalePaths64ToPathsD(a, 0.01), clip.TranslatePaths64(a, 3, 4), clip.Ellipse64(P{X: 5, Y: 5}, 20, 10, 0))
 		}},
 	}
-	return jobs
+	return jobs, []interface{}{a, b, line, pat, ad}
 }
 
 func init() {
 	stages["c18-hammer"] = func(ctx *Ctx, cnt func(q, t int) int, replay string) Result {
-		col := NewCollector("C18", "hammer", "race-detector build: 32 goroutines × rounds call 13 job kinds (package-level functions, their own engine / offset / rect-clip objects) on shared read-only inputs; each result is compared with the sequential result of the same job; non-trivial = every job (all produce non-empty output); the race detector aborts the process on any data race")
+		col := NewCollector("C18", "hammer", "race-detector build: 32 goroutines × rounds call 16 job kinds (package-level functions, their own engine / offset / rect-clip objects; join type, end type incl. Joined on closed rings, and delta drawn per round) on shared read-only inputs; each result is compared with the sequential result of the same job and the shared inputs are compared with their state before the round; non-trivial = every job (all produce non-empty output); the race detector aborts the process on any data race")
 		rounds := cnt(40, 1500)
 		for round := 0; round < rounds; round++ {
 			r := NewRng(ctx.Seed, "c18", round)
-			jobs := hammerJobs(r)
+			jobs, inputs := hammerJobs(r)
+			before := fmt.Sprint(inputs...)
 			want := make([]string, len(jobs))
 			for i, j := range jobs {
 				want[i] = j.f()
@@ -98,6 +107,9 @@ func init() {
 				}(gidx)
 			}
 			wg.Wait()
+			if after := fmt.Sprint(inputs...); after != before {
+				col.Violate(Violation{Property: "C18", Kind: "input-mutated", Signature: sigOf(fmt.Sprint("mut", round)), Detail: fmt.Sprintf("shared inputs changed during the round: %s -> %s", trunc(before, 300), trunc(after, 300)), Case: map[string]interface{}{"round": round}, Stream: "c18", Index: round, Seed: ctx.Seed})
+			}
 			if round == 0 {
 				col.Sample(map[string]interface{}{"round": 0, "jobs": len(jobs), "goroutines": 32})
 			}
